@@ -1,6 +1,7 @@
 import NunVerif.Model.Session
 import NunVerif.Props.C01
 import NunVerif.Props.C02
+import NunVerif.Props.C08
 import NunVerif.Props.C09
 import NunVerif.Props.C10
 import NunVerif.Props.C15
